@@ -358,12 +358,14 @@ class Enum:
     name: str
     docstring: ClassDocstring
     instances: list[EnumInstance] = field(default_factory=list)
+    is_public: bool = True
 
     def to_dict(self) -> dict[str, Any]:
         return {
             "id": self.id,
             "name": self.name,
             "docstring": self.docstring.to_dict(),
+            "is_public": self.is_public,
             "instances": [instance.id for instance in self.instances],
         }
 
